@@ -320,7 +320,11 @@ class Built:
 
     def register(self, did, alias, impl):
         """Register one overload on a built dataset (also used mid-history by C07)."""
+        from .ref import alias_value
+
         obj = self.dataset(did)
+        tag_alias = alias
+        alias = [alias_value(a) for a in alias] if isinstance(alias, list) else alias_value(alias)
         if impl.get("ds") is not None:
             other = self.dataset(impl["ds"])
             obj.overload(alias)(other)
@@ -329,7 +333,7 @@ class Built:
             for a in alias if isinstance(alias, list) else [alias]:
                 obj.register(a, e)
         else:
-            tag = overload_tag(alias, impl)
+            tag = overload_tag(tag_alias, impl)
             body = self._body(did, tag, impl.get("args", []))
             new = obj.overload(alias)(body)
             self.overload_ds[(did, tag)] = new
